@@ -13,6 +13,8 @@
    through the public RewardConfig -> rewardsFactory path with the metric configs in that order and is fed
    the matrix with its columns in that order.  The documented formula is on kinds (RewardIsDocumentedCombination);
    two named wrong column lookups of the spec must be refuted by TLC in every run (non-vacuity).
+   Metric values are rationals cube/den (one denominator per kind): column maxima above one, exactly one, strictly
+   between 0 and 1, zero and negative are mixed; the spec deviation "divisor floored at one" must be refuted too.
 """
 from __future__ import annotations
 
@@ -244,9 +246,12 @@ KIND_LABELS = {"stab": ("LyapunovStability",),
 KIND_TYPE = {"stab": "stability", "info": "information", "sens": "sensor", "beh": "target"}
 REWARD_NAME = {"sum": "simple-summation", "cost": "cost-constrained", "combined": "combined"}
 DOC_ORDER = ("stab", "info", "sens", "beh")
-# spec deviation (cfg) -> the invariant TLC has to refute with it
-DEVIATIONS = {"Rewards_deviation_sublist.cfg": "ColumnsByPositionInSublist",
-              "Rewards_deviation_docorder.cfg": "ColumnsInDocumentedOrder"}
+# spec deviation cfg -> (name of the deviation, the invariant TLC has to refute with it)
+DEVIATIONS = {"Rewards_deviation_sublist.cfg": ("ColumnsByPositionInSublist", "RewardIsDocumentedCombination"),
+              "Rewards_deviation_docorder.cfg": ("ColumnsInDocumentedOrder", "RewardIsDocumentedCombination"),
+              "Rewards_deviation_floor.cfg": ("DivisorFlooredAtOne", "NormalisedByKind")}
+# control (thorough tier): without the fractional columns the floored divisor is NOT refuted - the reason they are posed
+CONTROL = "Rewards_deviation_floor_unscaled.cfg"
 
 
 def _reward_builder():
@@ -281,6 +286,10 @@ def _reward_builder():
     return build
 
 
+def _colmax(cube):
+    return [max(cell[c] for row in cube for cell in row) for c in range(len(cube[0][0]))]
+
+
 def _close(a, b):
     """|a - b| <= 1e-12 everywhere (b finite: exact rationals of the spec); NaN / inf / a wrong shape are never close."""
     return a.shape == b.shape and bool((np.abs(a - b) <= 1e-12).all())
@@ -290,11 +299,14 @@ class _FactoryMismatch(Exception):
     pass
 
 
-def _real_reward(built, cube):
-    """normalizeMetrics + calculate of the real reward; `normed` is returned with its columns in the POSED order."""
+def _real_reward(built, cube, den=None):
+    """normalizeMetrics + calculate of the real reward on the matrix cube[t][s][c] / den[c]; `normed` is returned
+    with its columns in the POSED order."""
     rw, cols = built
     nt, ns = len(cube), len(cube[0])
     arr = np.array(cube, dtype=float)
+    if den is not None:
+        arr = arr / np.array(den, dtype=float)
     if cols is not None:
         arr = arr[..., cols].copy()
     normed = np.asarray(rw.normalizeMetrics(arr), dtype=float)
@@ -309,36 +321,48 @@ def _real_reward(built, cube):
 def replay_rewards(ctx: Ctx):
     from concurrent.futures import ThreadPoolExecutor
     cfgs = ["Rewards_quick.cfg"] if ctx.quick else ["Rewards_quick.cfg", "Rewards_orders_thorough.cfg", "Rewards_thorough.cfg"]
-    with ThreadPoolExecutor(len(DEVIATIONS) + 1) as ex:
-        # non-vacuity of the order stratum: TLC must refute each named wrong column lookup (small runs, one worker each)
-        dev_f = {c: ex.submit(tlc.run_tlc, "Rewards", c, ctx.sub("rewards_" + c[:-4]), workers=1, timeout=600) for c in DEVIATIONS}
+    side = list(DEVIATIONS) + ([] if ctx.quick else [CONTROL])
+    with ThreadPoolExecutor(len(side) + 1) as ex:
+        # non-vacuity of the order / fractional-maximum strata: TLC must refute each named wrong column lookup and the
+        # floored normalisation divisor (small runs, one worker each, beside the main run)
+        dev_f = {c: ex.submit(tlc.run_tlc, "Rewards", c, ctx.sub("rewards_" + c[:-4]), workers=1, timeout=600) for c in side}
         main = [tlc.run_tlc("Rewards", c, ctx.sub("rewards_" + c[:-4]), workers=ctx.cpus, timeout=3000) for c in cfgs]
         devs = {c: f.result() for c, f in dev_f.items()}
     for c, res in devs.items():
-        ctx.add_tlc(res, f"Rewards.tla with deviation {DEVIATIONS[c]}: refutation expected")
-        if [i for i, _ in res.invariant_violations] != ["RewardIsDocumentedCombination"] or res.errors:
-            raise tlc.MachineryError(f"spec deviation {DEVIATIONS[c]} not refuted by RewardIsDocumentedCombination "
+        if c == CONTROL:
+            ctx.add_tlc(res, "Rewards.tla with deviation DivisorFlooredAtOne on integer-valued metrics only: NOT refutable (control)")
+            tlc.require_ok(res, c)
+            continue
+        name, inv = DEVIATIONS[c]
+        ctx.add_tlc(res, f"Rewards.tla with deviation {name}: refutation by {inv} expected")
+        if [i for i, _ in res.invariant_violations] != [inv] or res.errors:
+            raise tlc.MachineryError(f"spec deviation {name} not refuted by {inv} "
                                      f"(violated: {[i for i, _ in res.invariant_violations]}, errors: {res.errors[:2]})")
-    ctx.extra["reward_spec_deviations_refuted"] = sorted(DEVIATIONS.values())
+    ctx.extra["reward_spec_deviations_refuted"] = sorted(nm for nm, _ in DEVIATIONS.values())
     build = _reward_builder()
     n = 0
     orders_seen = set()
+    max_classes = {"above one": 0, "exactly one": 0, "strictly between 0 and 1": 0, "zero": 0, "negative": 0}
     for cfg, res in zip(cfgs, main):
         for inv, states in res.invariant_violations:
             raise tlc.MachineryError(f"Rewards.tla invariant {inv} violated at spec level ({cfg}):\n" + "\n".join(states[-1:]))
         tlc.require_ok(res, cfg)
         ctx.add_tlc(res, f"Rewards.tla exhaustive, metric order x cube ({cfg}: kind-level reward formula, normalisation invariants, expected rewards)")
         for st in res.tagged("REWARD"):
-            kind, order, cube = st["kind"], tuple(st["order"]), st["cube"]
+            kind, order, cube, den = st["kind"], tuple(st["order"]), st["cube"], st["den"]
+            if max(den) > 1:    # a state of the fractional stratum: which classes of column maxima does it pose
+                for c, mx in enumerate(_colmax(cube)):
+                    max_classes["negative" if mx < 0 else "zero" if mx == 0 else "strictly between 0 and 1" if mx < den[c]
+                                else "exactly one" if mx == den[c] else "above one"] += 1
             exp_n = np.array([[[q[0] / q[1] for q in s] for s in t] for t in st["norm"]])
             exp_r = np.array([[q[0] / q[1] for q in t] for t in st["reward"]])
             n += 1
             orders_seen.add((kind, order))
-            ctx.case(("reward", kind, st["delta"], order, cube), sample=st if n == 1 else None)
+            ctx.case(("reward", kind, st["delta"], order, cube, den), sample=st if n == 1 else None)
             # which metric class of each type: a function of the posed state (TLC's output order is not deterministic)
             pick = ctx.seed + sum((i + 1) * v for i, v in enumerate(x for row in cube for cell in row for x in cell))
             try:
-                normed, got = _real_reward(build(kind, st["delta"], order, pick), cube)
+                normed, got = _real_reward(build(kind, st["delta"], order, pick), cube, den)
             except tlc.MachineryError:
                 raise
             except _FactoryMismatch as exc:
@@ -349,8 +373,16 @@ def replay_rewards(ctx: Ctx):
                               {"state": st})
                 continue
             if not _close(normed, exp_n):
-                ctx.violation(f"reward-normalize-{kind}", "normalizeMetrics differs from exact normalisation",
-                              {"state": st, "got": normed.tolist()})
+                bad = ({c for c in range(len(den)) if not _close(normed[..., c], exp_n[..., c])}
+                       if normed.shape == exp_n.shape else set())
+                if bad and bad <= {c for c, mx in enumerate(_colmax(cube)) if 0 < mx < den[c]}:
+                    ctx.violation("reward-normalize-max-below-one",
+                                  "normalizeMetrics does not scale a metric whose maximum over all pairs lies strictly between 0 and 1 "
+                                  "(documented: divide by the maximum whenever it is positive)",
+                                  {"state": st, "got": normed.tolist()})
+                else:
+                    ctx.violation(f"reward-normalize-{kind}", "normalizeMetrics differs from exact normalisation",
+                                  {"state": st, "got": normed.tolist()})
             elif normed.max() > 1 + 1e-12 and (np.array(cube).max(axis=(0, 1)) > 0).all():
                 ctx.violation("reward-normalize-gt1", "normalised metric above one", {"state": st})
             if not _close(got, exp_r):
@@ -360,7 +392,8 @@ def replay_rewards(ctx: Ctx):
                 if order != doc:
                     cube_doc = [[[cell[order.index(k)] for k in doc] for cell in row] for row in cube]
                     try:
-                        by_order = _close(_real_reward(build(kind, st["delta"], doc, pick), cube_doc)[1], exp_r)
+                        den_doc = [den[order.index(k)] for k in doc]
+                        by_order = _close(_real_reward(build(kind, st["delta"], doc, pick), cube_doc, den_doc)[1], exp_r)
                     except Exception:  # noqa: BLE001
                         by_order = False
                 if by_order:
@@ -380,6 +413,9 @@ def replay_rewards(ctx: Ctx):
     ctx.traces_validated += n
     ctx.extra["reward_states_replayed"] = n
     ctx.extra["reward_metric_orders_replayed"] = have
+    ctx.extra["reward_fractional_stratum_columns_by_maximum"] = max_classes
+    if min(max_classes.values()) == 0:
+        raise tlc.MachineryError(f"a class of column maxima was never posed: {max_classes}")
 
 
 def run(ctx: Ctx):
@@ -393,7 +429,8 @@ def run(ctx: Ctx):
                 "reward built by rewardsFactory from the config listing the metrics in that order, metric class rotating within its type")
     ctx.assumptions = ["documented sense of each policy: selection on R, then AND with V (Decision.calculate)",
                        "rewards are integers in the records (ties are exact); floats only inside the implementation",
-                       "reward values / normalised metrics compared with the exact rationals to 1e-12 absolute",
+                       "reward values / normalised metrics compared with the exact rationals to 1e-12 absolute; the metric matrix handed "
+                       "to the real code is the float quotient numerator/denominator (denominators 1..4)",
                        "a reward identifies its metrics by METRIC_TYPE (class docstrings: 'one metric of each of the following types'), "
                        "so every listing order of the kinds is a valid configuration",
                        "delta other than the default is set on a copy of the validated RewardConfig (the schema's gt=0/lt=0 bounds "
